@@ -558,6 +558,48 @@ def copy_provenance_oracle(w, step, sources):
     return match(roots, sources)
 
 
+def setdata_pre(w, op):
+    if op[0] not in ("set_data", "rename"):
+        return None
+    nd = w.live_node(op[2], op[1])
+    return None if nd is None else (nd, nd._data, nd._data_id)
+
+
+def setdata_oracle(w, step, before):
+    """after a successful set_data(d, data_id=e) / rename(d): the node holds exactly the object d (identity, however
+    d compares with the old data), its data_id is e if given, else the id rule applied to d if d is another object than
+    before, else unchanged; and the node is found under that id (and by find_all(d) when no explicit id was given)"""
+    op, res = step["op"], step["res"]
+    if before is None or res[0] != 0:
+        return None
+    nd, old_data, old_id = before
+    ti = op[1]
+    if op[0] == "rename":
+        d, did = op[3], None
+    else:
+        d, did = op[3], op[4]
+    t = w.trees[ti]
+    me = w.rel(nd)
+    if d is not None and nd._data is not w.dobj(d):
+        return (f"set_data: node {me} was given data object #{d} but holds another object afterwards "
+                f"(holds the old one: {nd._data is old_data})")
+    exp = did
+    if exp is None:
+        exp = calc_of(w, ti, w.dobj(d)) if (d is not None and w.dobj(d) is not old_data) else old_id
+    if exp is RAISES:
+        return None
+    if nd._data_id != exp or nd.data_id != exp:
+        return f"set_data: node {me} has data_id {nd._data_id!r} afterwards, expected {exp!r}"
+    try:
+        if not any(x is nd for x in t.find_all(data_id=exp)):
+            return f"set_data: node {me} is not found by find_all(data_id={exp!r}) after it was re-keyed"
+        if did is None and d is not None and w.dobj(d) is not old_data and not any(x is nd for x in t.find_all(w.dobj(d))):
+            return f"set_data: node {me} is not found by find_all(<data object #{d}>) after set_data with that object"
+    except Exception as e:
+        return f"set_data: lookup after set_data raised {e!r}"
+    return None
+
+
 def hooks(ops, stats=None, probe_from=0):
     """(prober, pre, post) for mut_ex.replay.  Steps before `probe_from` are not probed (their entry in
     prober.obs is None): an alternative of an exhaustive group only needs the answers after its set-up."""
@@ -566,7 +608,7 @@ def hooks(ops, stats=None, probe_from=0):
     def pre(w, si, op):
         if si < probe_from:
             return None
-        return dict(held=pr.hold(w), sources=copy_sources(w, op) if op[0] in COPY_OPS else None)
+        return dict(held=pr.hold(w), sources=copy_sources(w, op) if op[0] in COPY_OPS else None, setdata=setdata_pre(w, op))
 
     def post(w, si, step, ctx):
         if si < probe_from:
@@ -579,6 +621,10 @@ def hooks(ops, stats=None, probe_from=0):
             out.append(("lookup", held_msg))
         if pr.alias_msg:
             out.append(("lookup", pr.alias_msg))
+        if ctx and ctx.get("setdata") is not None:
+            m = setdata_oracle(w, step, ctx["setdata"])
+            if m:
+                out.append(("lookup", m))
         if ctx and ctx.get("sources") is not None:
             m = copy_provenance_oracle(w, step, ctx["sources"])
             if m:
@@ -609,7 +655,8 @@ class Gen02(mut_c01.Gen01):
     def step(self):
         if self.rng.random() < 0.35:
             k = self.rng.choice(["rekey_group", "rekey_group", "split_group", "split_group", "single", "single", "readd", "remove_one_clone",
-                                 "clone_pair", "clone_pair", "iter_remove", "iter_remove", "deep_copy_ids"])
+                                 "clone_pair", "clone_pair", "iter_remove", "iter_remove", "deep_copy_ids", "falsy_add", "falsy_add",
+                                 "falsy_calc", "falsy_copy", "falsy_copy", "equal_swap", "equal_swap"])
             try:
                 if getattr(self, "sp_" + k)():
                     return
@@ -665,6 +712,82 @@ class Gen02(mut_c01.Gen01):
             self.do(["addnode", tti, self.any_node(tti), ti, w.rel(n), None, self._kind(tti), None, True])
         return True
 
+    def sp_falsy_add(self):
+        """a new node with an explicit FALSY data_id (0 or "")"""
+        rng = self.rng
+        ti = self.pick_tree()
+        did = rng.choice([0, ""])
+        if rng.random() < 0.6:
+            self.do(["add", ti, self.any_node(ti), rng.randrange(len(self.univ)), did, self._kind(ti), self.before_arg(ti, 0) if False else None])
+        else:
+            n = self.any_node(ti)
+            self.do(["short", ti, n, rng.choice(["append_child", "prepend_child"]), rng.randrange(len(self.univ)), did, self._kind(ti)])
+        return True
+
+    def _falsy_data(self, ti):
+        """universe objects for which this tree's id rule answers a falsy id"""
+        out = []
+        for i in range(len(self.univ)):
+            v = calc_of(self.w, ti, self.w.dobj(i))
+            if v is not RAISES and not v:
+                out.append(i)
+        return out
+
+    def sp_falsy_calc(self):
+        """a node whose id comes from the id rule (callback or hash) and is falsy: "" under the name callback, 0 under hash / mod 7"""
+        ti = self.pick_tree()
+        fd = self._falsy_data(ti)
+        if not fd:
+            return False
+        self.do(["add", ti, self.any_node(ti), self.rng.choice(fd), None, self._kind(ti), None])
+        return True
+
+    def sp_falsy_copy(self):
+        """copy a node that carries a falsy id (shallow, deep, as a branch member, whole tree) - into another tree if there is one"""
+        w, rng = self.w, self.rng
+        cands = [(ti, n) for ti in range(len(w.trees)) for n in self._tree_nodes(ti) if not n._data_id]
+        if not cands:
+            return self.sp_falsy_calc() or self.sp_falsy_add()
+        ti, n = rng.choice(cands)
+        tti = rng.choice([x for x in range(len(w.trees)) if x != ti] or [ti])
+        how = rng.choice(["addnode", "addnode", "copyto_parent", "treecopy", "nodecopy"])
+        if how == "addnode":
+            self.do(["addnode", tti, self.any_node(tti), ti, w.rel(n), None, self._kind(tti), None, rng.choice([None, True])])
+        elif how == "copyto_parent" and n._parent is not w.trees[ti]._root:
+            self.do(["copyto", ti, w.rel(n._parent), tti, self.any_node(tti), True, None, True])
+        elif how == "treecopy" and len(w.trees) < 3:
+            self.do(["treecopy", ti])
+        elif len(w.trees) < 3:
+            top = n
+            while top._parent is not w.trees[ti]._root:
+                top = top._parent
+            self.do(["nodecopy", ti, w.rel(top), True])
+        else:
+            self.do(["addnode", tti, self.any_node(tti), ti, w.rel(n), None, self._kind(tti), None, True])
+        return True
+
+    def sp_equal_swap(self):
+        """set_data with an object that compares EQUAL to the node's data but is another object"""
+        w, rng = self.w, self.rng
+        for _ in range(5):
+            ti = self.pick_tree()
+            t = w.trees[ti]
+            n = self._pick(ti, lambda x: any(self.univ[j] == self.univ[w.U.index(x._data)] and w.dobj(j) is not x._data
+                                             for j in range(len(self.univ))))
+            if n is None:
+                # plant one: a w:/e:/d: object that has a twin in the universe
+                tw = [i for i, sp in enumerate(self.univ) if sp[0] in "wed" and self.univ.count(sp) > 1]
+                if not tw:
+                    return False
+                self.do(["add", ti, self.any_node(ti), rng.choice(tw), rng.choice([None, None, "X1"]), self._kind(ti), None])
+                continue
+            i = w.U.index(n._data)
+            twins = [j for j in range(len(self.univ)) if self.univ[j] == self.univ[i] and w.dobj(j) is not n._data]
+            has_clones = len(t._nodes_by_data_id.get(n._data_id, [])) > 1
+            self.do(["set_data", ti, w.rel(n), rng.choice(twins), rng.choice([None, None, "X2"]), rng.choice([False, True]) if has_clones else None])
+            return True
+        return False
+
     def sp_single(self):
         w, rng = self.w, self.rng
         ti = self.pick_tree()
@@ -705,5 +828,44 @@ class Gen02(mut_c01.Gen01):
         return True
 
 
+UNIV_C02 = mut.UNIV_DEFAULT + ["w:4", "d:3", "t:1,2"]     # equal-content twins of the DictWrapper / dataclass / tuple entries
+
+
 def gen_history(rng, n_ops=30, **kw):
+    kw.setdefault("univ", UNIV_C02)
     return mut_c01.gen_history(rng, n_ops, cls=Gen02, **kw)
+
+
+def gen_falsy():
+    """Three trees (id rule: hash mod 7 / default hash / name) holding nodes whose ids are FALSY (0, ""), by callback and
+    by hash; alternatives: new nodes with explicit ids 0 and "" everywhere, copies of the falsy-id nodes into the tree
+    without callback (shallow, deep, as branch members, add(tree), Tree.copy, Node.copy), set_data to falsy ids and to
+    equal-but-distinct objects (frozen dataclass, value-equal objects; DictWrapper twins are in the random histories)."""
+    # no identity-hashed objects here: every alternative is replayed in a world of its own, and the set-up term is shared
+    univ = ["i:7", "s:a", "i:0", "s:", "s:b", "d:3", "d:3", "e:1", "e:1", "s:new"]
+    setup = [["new", False, "mod7"], ["new", False, None], ["new", False, "name"],
+             ["add", 0, 0, 0, None, None, None], ["add", 0, 0, 1, None, None, None], ["add", 0, 2, 2, None, None, None], ["add", 0, 1, 5, None, None, None],
+             ["add", 1, 0, 1, None, None, None], ["add", 1, 0, 5, None, None, None], ["add", 1, 0, 7, None, None, None],
+             ["add", 2, 0, 3, None, None, None], ["add", 2, 0, 4, None, None, None], ["add", 2, 9, 3, None, None, None]]
+    parents = {0: [0, 1, 2, 3, 4], 1: [0, 5, 6, 7], 2: [0, 8, 9, 10]}
+    alts = []
+    for ti, ps in parents.items():
+        for p in ps:
+            for did in (0, ""):
+                alts.append(["add", ti, p, 9, did, None, None])
+            alts.append(["short", ti, p, "append_child", 9, 0, None])
+            alts.append(["short", ti, p, "prepend_child", 4, "", None])
+    for p in (0, 5):
+        for sti, src in ((0, 1), (0, 3), (0, 2), (2, 8), (2, 10), (2, 9)):
+            for deep in (None, True):
+                alts.append(["addnode", 1, p, sti, src, None, None, None, deep])
+        for sti, src in ((0, 2), (2, 9), (0, 0), (2, 0)):
+            alts.append(["copyto", sti, src, 1, p, src != 0, None, True])
+        alts.append(["addtree", 1, p, 0, None, None])
+        alts.append(["addtree", 1, p, 2, None, None])
+    alts += [["treecopy", 0], ["treecopy", 2], ["nodecopy", 0, 2, True], ["nodecopy", 0, 2, False], ["nodecopy", 2, 9, True], ["nodecopy", 0, 1, True]]
+    alts += [["set_data", 1, 6, 6, None, None], ["set_data", 1, 7, 8, None, None], ["set_data", 0, 4, 6, None, None], ["set_data", 1, 6, 6, "X1", None],
+             ["set_data", 1, 5, None, 0, None], ["set_data", 1, 5, None, "", None], ["set_data", 1, 5, 9, 0, None], ["set_data", 1, 7, 9, "", None],
+             ["set_data", 0, 2, None, 0, None], ["set_data", 2, 9, None, "", None], ["rename", 2, 9, 3], ["rename", 1, 5, 3],
+             ["del", 0, {"id": 0}], ["del", 2, {"id": ""}], ["del", 1, {"id": 0}]]
+    yield dict(univ=univ, setup=setup, alts=alts, label="falsy", n=10)
